@@ -3,6 +3,7 @@ package websocket
 import (
 	"errors"
 	"net"
+	"time"
 )
 
 var vReasonLens = []int{0, 1, 123, 124, 130}
@@ -298,4 +299,54 @@ func verifC06_echo_window() {
 	}
 	c.CloseNow()
 	vObserve("c06window", err == nil)
+}
+
+// C06.echo-vs-close: the peer's Close frame has been read and its echo is being written - slowly: the peer has not
+// taken it yet - when the application calls Close. Whoever writes it, one Close frame reaches the peer (the transport is
+// healthy: the held write is released a moment later); Close must not tear the transport down under the Close frame that
+// is on its way. Pinned by the transport (the first transport write is held), no exploration.
+func verifC06_echo_vs_close() {
+	client := vParam("client", 1) == 1
+	vInstallRand()
+	t := vNewTransport(nil)
+	t.endMode = vEndBlock
+	t.holdAt = 1
+	c := vNewConn(t, client, nil, 32, 64)
+	rdone := make(chan error, 1)
+	viaCloseRead := vChoose("reader", 2) == 1
+	if viaCloseRead {
+		c.CloseRead(vBG)
+	} else {
+		go func() {
+			_, _, err := c.Read(vBG)
+			rdone <- err
+		}()
+	}
+	vGhostSettle()
+	cl := vFrame{fin: true, opcode: 8, masked: !client, payload: []byte{0x03, 0xe8}}
+	if cl.masked {
+		copy(cl.key[:], vBytes("key", 4))
+	}
+	t.vFeed(vEncodeFrame(cl))
+	vGhostSettle() // the reader is inside the echo's transport write
+	cdone := make(chan error, 1)
+	go func() { cdone <- c.Close(StatusGoingAway, "x") }()
+	vGhostSettle()
+	close(t.release) // the peer takes what is being written
+	<-cdone
+	if !viaCloseRead {
+		rerr := <-rdone
+		vAssert(int(CloseStatus(rerr)) == 1000, "C06.recv.read-fails-with-close-error")
+	}
+	vGhostSettle()
+	vReach("C06.echo-vs-close.done")
+	first, nClose, after, ok := vCloseFrames(t.out)
+	vAssert(ok && nClose == 1 && after == 0, "C06.echo-vs-close.one-close-frame-reaches-the-peer")
+	if nClose == 1 && len(first) >= 2 {
+		code := int(first[0])<<8 | int(first[1])
+		vAssert(code == 1000 || code == 1001, "C06.echo-vs-close.code")
+	}
+	vAssert(vGhostElapsed() < 11*time.Second+vSlack(), "C09.close.within-documented-bound")
+	c.CloseNow()
+	vObserve("c06echovsclose", nClose)
 }
